@@ -7,6 +7,7 @@ open GlueVerif.C14
 #print axioms getitem_view_commutes
 #print axioms remove_closure
 #print axioms depClosure_iff_reach
+#print axioms remove_keeps_inputs
 #print axioms remove_absent
 #print axioms remove_spec
 #print axioms update_id_preserves_order
